@@ -138,9 +138,11 @@ pub fn generate(seed: u64, limits: &ConfigLimits) -> GenConfig {
         termination["variation"] = json!({ "intervalType": *p.pick(&["sample", "period"]), "value": p.range(2, 20),
             "cv": *p.pick(&[0.0, 0.01, 0.5]), "isGlobal": p.chance(0.5) });
     }
-    let pools = *p.pick(&[(0usize, 0usize), (0, 0), (1, 1), (1, 4), (2, 2), (4, 1), (3, 2), (8, 1)]);
+    // (p, 0): rayon chooses the number of threads of a pool itself; (0, t): an explicit layout without any pool
+    // ("If there is no thread pool with such an index, then execute it without using any of thread pools")
+    let pools = *p.pick(&[(0usize, 0usize), (0, 0), (1, 1), (1, 4), (2, 2), (4, 1), (3, 2), (8, 1), (2, 0), (1, 0), (0, 2)]);
     let mut environment = json!({ "logging": { "enabled": false }, "isExperimental": p.chance(0.2) });
-    if pools.0 > 0 {
+    if pools != (0, 0) {
         environment["parallelism"] = json!({ "numThreadPools": pools.0, "threadsPerPool": pools.1 });
     }
     let config = json!({
